@@ -67,8 +67,17 @@ def build_state(case):
         if case.get("tiny_variable") and nw >= 2:
             # one variable ~1e-130 times smaller than the others: its products with Theta are subnormal or underflow to 0
             sc = np.ones(nw)
-            sc[int(rng.integers(0, nw))] = 1e-130
-            c.empirical_covariance = c.empirical_covariance * sc[:, None] * sc[None, :]
+            v = int(rng.integers(0, nw))
+            sc[v] = 1e-170
+            with np.errstate(all="ignore"):
+                c.empirical_covariance = c.empirical_covariance * sc[:, None] * sc[None, :]
+            # ... and the MRF couples it to the others only through minute (but non-zero) entries: Theta_vj * S_vj ~ 1e-320
+            th = np.array(c.train_inverse, copy=True)
+            keep = th[v, v]
+            th[v, :] = 1e-150
+            th[:, v] = 1e-150
+            th[v, v] = keep
+            c.train_inverse = th
         c.stacked_data_mean = np.zeros(nw)
     return st, labels
 
